@@ -334,7 +334,7 @@ def verdict(pid, results, hist_of, known, also=None, all_kinds=()):
     a callable (prop, conj) -> bool."""
     mine, others = [], 0
     for r in results:
-        for v in r["viols"]:
+        for v in r["viols"][:5000]:
             if v["prop"] == pid:
                 mine.append((r, v))
             elif r["job"].get("kind") in all_kinds or (also and also(v["prop"], v["conj"])):
@@ -404,7 +404,7 @@ def run_main(pid, tier, seed, replay=None):
                       overrides=mc.get("overrides"), tag=mc.get("tag"), heap=mc.get("heap", "12g"))
         expect = mc.get("expect_violation", False)
         vk.log(f"[mc] {r['cfg']}: {r['states']} distinct states, {r['transitions']} transitions, "
-               f"{'VIOLATED ' + str(r['violated']) if r['violated'] else 'ok'} ({r['wall']}s){' [sensitivity run]' if expect else ''}")
+               f"{'VIOLATED ' + str(r['violated']) if r['violated'] else ('ok' if r.get('complete', True) else 'no violation within the time bound (not exhaustive)')} ({r['wall']}s){' [sensitivity run]' if expect else ''}")
         if expect and not r["violated"]:
             raise vk.ToolError(f"sensitivity run {r['cfg']} found no violation: the model has lost its teeth")
         if not expect and r["violated"]:
@@ -442,11 +442,15 @@ def run_main(pid, tier, seed, replay=None):
         if r["job"].get("kind") in ("txn", "crash", "fixture", "upgrade", "bq", "kernel"):
             return dict(label=r["job"]["kind"], indexes=[], ops=[], job_args=r["job"]["args"], module=r["job"]["module"])
         if r["job"].get("kind") == "sched":
-            with open(r["prefix"] + ".ndjson") as f:
-                for ln in f:
-                    e = json.loads(ln)
-                    if e["n"] == hno:
-                        return dict(label="sched", indexes=[], ops=[], line=e)
+            key = r["prefix"] + "#sched"
+            if key not in hists_cache:
+                with open(r["prefix"] + ".ndjson") as f:
+                    hists_cache[key] = f.readlines()
+            lines = hists_cache[key]
+            if 0 <= hno < len(lines):
+                e = json.loads(lines[hno])
+                if e["n"] == hno:
+                    return dict(label="sched", indexes=[], ops=[], line=e)
             return None
         key = r["prefix"]
         if key not in hists_cache:
@@ -650,6 +654,9 @@ def mc(cfg, tag, overrides=None, expect=False, timeout=900):
     return dict(module="Arroy.tla", cfg=cfg, tag=tag, overrides=overrides or {}, expect_violation=expect, timeout=timeout)
 
 
+SEARCH_Q = [mc("MC_Search.cfg", "search_theorems_1tree")]
+SEARCH_T = [mc("MC_Search.cfg", "search_theorems_1tree_3builds", {"MaxBuilds": "3"}, timeout=1800), mc("MC_Search2.cfg", "search_theorems_2trees", timeout=1800),
+            mc("MC_Search.cfg", "sens_query_routed_to_the_wrong_side", {"QueryFlip": "TRUE"}, expect=True)]
 FOREST_Q = [mcf("forest_1tree_2builds")]
 FOREST_T = [mcf("forest_1tree_3builds", {"MaxBuilds": "3"}),
             mcf("forest_2trees", {"Reqs": "{0, 2}", "Toks": "{\"a\"}"}, timeout=1500)]
@@ -665,19 +672,19 @@ MAIN = {
         distinct=distinct_forests,
     ),
     "C04": dict(
-        mc=dict(quick=FOREST_Q, thorough=FOREST_T),
+        mc=dict(quick=SEARCH_Q, thorough=SEARCH_T),
         traces=dict(quick=[dict(profile="search", jobs=8, count=30)],
                     thorough=[dict(profile="search", jobs=16, count=400), dict(profile="forest", jobs=8, count=400, seed_off=100)]),
         distinct=distinct_forests, sample_event="Build",
     ),
     "C05": dict(
-        mc=dict(quick=[mc("MC_Store.cfg", "store_txn")], thorough=[mc("MC_Store.cfg", "store_txn_3ids", {"Ids": "{1, 2, 3}", "MaxBuilds": "2", "Toks": "{\"a\", \"b\"}"}, timeout=1800)]),
+        mc=dict(quick=[mc("MC_Store.cfg", "store_txn")], thorough=[mc("MC_Store.cfg", "store_txn_3ids", {"Ids": "{1, 2, 3}", "MaxBuilds": "2", "Toks": "{\"a\"}"}, timeout=600)]),
         traces=dict(quick=[dict(profile="store", jobs=8, count=60)],
                     thorough=[dict(profile="store", jobs=16, count=900), dict(profile="metric", jobs=4, count=300, seed_off=100)]),
         distinct=distinct_events, sample_event="Add",
     ),
     "C06": dict(
-        mc=dict(quick=[mc("MC_Store.cfg", "store_txn")], thorough=[mc("MC_Store.cfg", "store_txn_3ids", {"Ids": "{1, 2, 3}", "MaxBuilds": "2"}, timeout=1800),
+        mc=dict(quick=[mc("MC_Store.cfg", "store_txn")], thorough=[mc("MC_Store.cfg", "store_txn_3ids", {"Ids": "{1, 2, 3}", "MaxBuilds": "2", "Toks": "{\"a\"}"}, timeout=600),
                                                                   mc("MC_Metric.cfg", "metric")]),
         traces=dict(quick=[dict(profile="store", jobs=8, count=60, seed_off=7)],
                     thorough=[dict(profile="store", jobs=16, count=900, seed_off=7), dict(profile="multi", jobs=4, count=300, seed_off=100)]),
@@ -701,18 +708,18 @@ MAIN = {
     ),
     "C19": dict(
         mc=dict(quick=[mc("MC_Store.cfg", "store_txn"), mc("MC_Multi.cfg", "multi")],
-                thorough=[mc("MC_Store.cfg", "store_txn_3ids", {"Ids": "{1, 2, 3}", "MaxBuilds": "2"}, timeout=1800), mc("MC_Multi.cfg", "multi")]),
+                thorough=[mc("MC_Store.cfg", "store_txn_3ids", {"Ids": "{1, 2, 3}", "MaxBuilds": "2", "Toks": "{\"a\"}"}, timeout=600), mc("MC_Multi.cfg", "multi")]),
         traces=dict(quick=[dict(profile="store", jobs=6, count=60, seed_off=13), dict(profile="search", jobs=2, count=30, seed_off=13)],
                     thorough=[dict(profile="store", jobs=16, count=900, seed_off=13), dict(profile="search", jobs=4, count=300, seed_off=13)]),
         distinct=distinct_events, sample_event="Append",
     ),
     "C02": dict(
-        mc=dict(quick=FOREST_Q, thorough=FOREST_T),
+        mc=dict(quick=SEARCH_Q, thorough=SEARCH_T),
         traces=dict(quick=[dict(profile="search", jobs=8, count=30, seed_off=3)], thorough=[dict(profile="search", jobs=16, count=500, seed_off=3)]),
         distinct=distinct_forests, sample_event="Build",
     ),
     "C03": dict(
-        mc=dict(quick=FOREST_Q, thorough=FOREST_T),
+        mc=dict(quick=SEARCH_Q, thorough=SEARCH_T),
         traces=dict(quick=[dict(profile="search", jobs=8, count=30, seed_off=5)], thorough=[dict(profile="search", jobs=16, count=500, seed_off=5)]),
         distinct=distinct_forests, sample_event="Build",
     ),
